@@ -18,7 +18,7 @@ impl OnEvictCallback for NopCb {
 }
 
 fn caps(tier: Tier) -> Vec<usize> {
-    let top = if tier == Tier::Thorough { 20 } else { 17 };
+    let top = if tier == Tier::Thorough { 21 } else { 20 };
     let mut v = vec![1usize, 2, 3, 5, 6, 7, 100, 1000, 10_000, 65_535, 65_536, 65_537, 70_000, 100_000];
     for k in 2..=top {
         let p = 1usize << k;
@@ -71,7 +71,9 @@ fn raw_script<E: OnEvictCallback, S: BuildHasher>(name: &str, n: usize, made: Re
     f
 }
 
-fn composite_script<C: Cache<u64, u64>>(name: &str, n: usize, free: usize, made: Result<C, String>) -> Vec<Finding> {
+/// fill a composite cache with distinct keys, then touch every resident key once (every one is promoted),
+/// then add a few more keys: below capacity nothing may leave, above it len() stays at cap()
+fn composite_script<C: Cache<u64, u64>>(name: &str, policy: &'static str, n: usize, free: usize, promotable: usize, made: Result<C, String>) -> Vec<Finding> {
     let mut f = vec![];
     let mut c = match made {
         Ok(c) => c,
@@ -80,14 +82,33 @@ fn composite_script<C: Cache<u64, u64>>(name: &str, n: usize, free: usize, made:
     if c.cap() != n {
         f.push(Finding::new("C01", "cap_reported", name.to_string(), format!("{} of size {} reports cap() == {}", name, n, c.cap())));
     }
-    for k in 0..(n as u64 + 3) {
+    for k in 0..free as u64 {
         let r = c.put(k, k);
-        if (k as usize) < free && (r != PutResult::Put || c.len() != k as usize + 1) {
-            f.push(Finding::new("C01", "len_counts_resident", name.to_string(), format!("{} of size {}: put of distinct key #{} returned {:?}, len() == {}", name, n, k, r, c.len())));
+        if r != PutResult::Put || c.len() != k as usize + 1 {
+            let d = format!("{} of size {}: put of distinct key #{} returned {:?}, len() == {}", name, n, k, r, c.len());
+            f.push(Finding::new("C01", "len_counts_resident", name.to_string(), d.clone()));
+            f.push(Finding::new(policy, "nothing_leaves_below_capacity", name.to_string(), d));
             return f;
         }
+    }
+    // second access of each resident key (as many as the policy can promote without overflowing a segment)
+    for k in 0..promotable.min(free) as u64 {
+        let got = c.get(&k).copied();
+        let len_now = c.len();
+        if got != Some(k) || len_now != free {
+            f.push(Finding::new(
+                policy,
+                "nothing_leaves_below_capacity",
+                name.to_string(),
+                format!("{} of size {} holding {} distinct keys: get of key #{} returned {:?} and left len() == {} - a promotion made an entry disappear although the cache was not over capacity", name, n, free, k, got, len_now),
+            ));
+            return f;
+        }
+    }
+    for k in 0..3u64 {
+        c.put(n as u64 + 10 + k, 0);
         if c.len() > c.cap() {
-            f.push(Finding::new("C01", "resident_le_cap", name.to_string(), format!("{} of size {}: len() == {} > cap() == {} after {} puts", name, n, c.len(), c.cap(), k + 1)));
+            f.push(Finding::new("C01", "resident_le_cap", name.to_string(), format!("{} of size {}: len() == {} > cap() == {}", name, n, c.len(), c.cap())));
             return f;
         }
     }
@@ -95,7 +116,7 @@ fn composite_script<C: Cache<u64, u64>>(name: &str, n: usize, free: usize, made:
 }
 
 pub fn capacity_sweep(tier: Tier) -> EngineReport {
-    let mut rep = EngineReport { name: "capacity sweep (every constructor, capacities up to 2^17 quick / 2^20 thorough)".into(), exhaustive: true, ..Default::default() };
+    let mut rep = EngineReport { name: "capacity sweep (every constructor; RawLRU and the protected segment up to 2^20 quick / 2^21 thorough, composite caches up to 2^17)".into(), exhaustive: true, ..Default::default() };
     let caps = caps(tier);
     let results: Vec<(usize, u64, Vec<Finding>)> = caps
         .par_iter()
@@ -109,11 +130,35 @@ pub fn capacity_sweep(tier: Tier) -> EngineReport {
                 f.extend(raw_script("RawLRU::with_on_evict_cb", n, RawLRU::<u64, u64, NopCb>::with_on_evict_cb(n, NopCb)));
                 f.extend(raw_script("RawLRU::with_on_evict_cb_and_hasher", n, RawLRU::<u64, u64, NopCb, HB>::with_on_evict_cb_and_hasher(n, NopCb, HB::new(HKind::Identity))));
                 if n <= 1 << 17 {
-                    f.extend(composite_script("TwoQueueCache::new", n, n, TwoQueueCache::<u64, u64>::new(n).map_err(|e| format!("{:?}", e))));
-                    f.extend(composite_script("AdaptiveCache::new", n, n, AdaptiveCache::<u64, u64>::new(n).map_err(|e| format!("{:?}", e))));
+                    f.extend(composite_script("TwoQueueCache::new", "C08", n, n, n, TwoQueueCache::<u64, u64>::new(n).map_err(|e| format!("{:?}", e))));
+                    f.extend(composite_script("TwoQueueCacheBuilder", "C08", n, n, n, caches::TwoQueueCacheBuilder::new(n).finalize::<u64, u64>().map_err(|e| format!("{:?}", e))));
+                    f.extend(composite_script("AdaptiveCache::new", "C09", n, n, n, AdaptiveCache::<u64, u64>::new(n).map_err(|e| format!("{:?}", e))));
+                    f.extend(composite_script("AdaptiveCacheBuilder", "C09", n, n, n, caches::AdaptiveCacheBuilder::new(n).finalize::<u64, u64>().map_err(|e| format!("{:?}", e))));
                     let (pb, pt) = (n - n / 2, n / 2);
                     if pt >= 1 {
-                        f.extend(composite_script("SegmentedCache::new", n, pb, SegmentedCache::<u64, u64>::new(pb, pt).map_err(|e| format!("{:?}", e))));
+                        f.extend(composite_script("SegmentedCache::new", "C07", n, pb, pt.min(pb), SegmentedCache::<u64, u64>::new(pb, pt).map_err(|e| format!("{:?}", e))));
+                    }
+                }
+                if n >= 1 << 16 && n.is_power_of_two() {
+                    // a protected segment just above a power of two, filled by promotions one at a time
+                    let pt = n + 1;
+                    if let Ok(mut c) = SegmentedCache::<u64, u64>::new(2, pt) {
+                        for k in 0..pt as u64 {
+                            c.put(k, k);
+                            let _ = c.get(&k);
+                            if c.protected_len() != k as usize + 1 || c.probationary_len() != 0 {
+                                f.push(Finding::new(
+                                    "C07",
+                                    "nothing_leaves_below_capacity",
+                                    "SegmentedCache::new/protected".to_string(),
+                                    format!("SegmentedCache::new(2, {}): after promoting {} keys one by one the protected segment holds {} and the probationary {} (expected {} and 0)", pt, k + 1, c.protected_len(), c.probationary_len(), k + 1),
+                                ));
+                                break;
+                            }
+                        }
+                        if c.cap() != pt + 2 {
+                            f.push(Finding::new("C01", "cap_reported", "SegmentedCache::new/protected".to_string(), format!("SegmentedCache::new(2, {}) reports cap() == {}", pt, c.cap())));
+                        }
                     }
                 }
                 f
@@ -138,7 +183,7 @@ pub fn capacity_sweep(tier: Tier) -> EngineReport {
         }
     }
     rep.distinct_nontrivial = rep.states;
-    rep.detail = json!({"capacities": caps, "constructors": ["RawLRU::new", "RawLRU::with_hasher", "RawLRU::with_on_evict_cb", "RawLRU::with_on_evict_cb_and_hasher", "TwoQueueCache::new", "AdaptiveCache::new", "SegmentedCache::new"],
+    rep.detail = json!({"capacities": caps, "constructors": ["RawLRU::new", "RawLRU::with_hasher", "RawLRU::with_on_evict_cb", "RawLRU::with_on_evict_cb_and_hasher", "TwoQueueCache::new", "TwoQueueCacheBuilder", "AdaptiveCache::new", "AdaptiveCacheBuilder", "SegmentedCache::new"],
         "script": "cap() is the requested one; n distinct puts return Put with len growing by one; put n+1 evicts key 0 and peek_lru names key 1"});
     rep
 }
